@@ -726,6 +726,10 @@ func runMerge(c *harness.Ctx) harness.Result {
 		}
 		c.Stat("permutations", 1)
 	}
+	// the merged profile is itself compacted: nothing unreferenced is left behind
+	if fm, fc := mon.Fingerprint(m), mon.Fingerprint(m.Compact()); fm != fc {
+		return fail("the merged profile is not a fixpoint of Compact (unreferenced or duplicate entities were left behind):\n--- merged\n%s\n--- compacted\n%s", harness.Trunc(fm, 1500), harness.Trunc(fc, 1500))
+	}
 	// compact idempotence, and Compact(m) == m in view
 	c1 := m.Compact()
 	c2 := c1.Compact()
